@@ -12,7 +12,9 @@ current tree on every run:
   * `_find_class_record`: the class-structure suffixes, in the order tried;
   * `_introspect_signals`: the attribute names and defaults, the synthesized argument names;
   * `_pass_type_resolution`: the default parent of an interface;
-  * `_pair_quarks_with_enums`: the suffix cut from the symbol and the special-cased name;
+  * `_pair_quarks_with_enums`: the suffix cut from the symbol and the special-cased name, what
+    its two loops iterate over; `Namespace.float` (ast.py) statement by statement;
+  * `GIRWriter._write_property`: the test that guards the default-value attribute;
   * `Type.create_from_gtype_name`: the container GType names and what they turn into
     (by calling it).
 
@@ -135,6 +137,12 @@ def main():
             walk_src = [ast.unparse(n).replace('\n', ' ; ')]
     pq = find_method(mt, 'MainTransformer', '_pair_quarks_with_enums')
     pq_strs = [s for s in str_consts(pq) if s in ('_quark', 'g_io_error', 'IOErrorEnum', 'Gio')]
+    pq_iters = [ast.unparse(n.iter) for n in pq.body if isinstance(n, ast.For)]
+    with open(os.path.join(REPO, 'giscanner', 'girwriter.py'), encoding='utf-8') as f:
+        gw = ast.parse(f.read())
+    wp = find_method(gw, 'GIRWriter', '_write_property')
+    default_tests = [ast.unparse(n.test) for n in ast.walk(wp)
+                     if isinstance(n, ast.If) and 'default-value' in str_consts(n)]
     vf = find_method(mt, 'MainTransformer', '_pair_class_virtuals')
     vf_src = []
     for n in ast.walk(vf):
@@ -149,6 +157,10 @@ def main():
     with open(os.path.join(REPO, 'giscanner', 'ast.py'), encoding='utf-8') as f:
         at = ast.parse(f.read())
     cf = find_method(at, 'Type', 'create_from_gtype_name')
+    fl = find_method(at, 'Namespace', 'float')
+    float_src = [ast.unparse(st) for st in fl.body
+                 if not (isinstance(st, ast.Expr) and isinstance(st.value, ast.Constant))]
+    float_src = [x.replace('\n', ' ; ') for x in float_src]
     cont_names = []
     for n in ast.walk(cf):
         if isinstance(n, ast.Compare) and ast.unparse(n.left) == 'gtype_name':
@@ -227,6 +239,16 @@ def defaultIfaceParent : List String := %s
 /-- `_pair_quarks_with_enums`: literals -/
 def quarkLiterals : List String := %s
 
+/-- `_pair_quarks_with_enums`: what its toplevel `for` loops iterate over (the enumerations; the
+    error-quark functions) -/
+def quarkLoopIters : List String := %s
+
+/-- `Namespace.float` (ast.py), statement by statement without the docstring -/
+def floatShape : List String := %s
+
+/-- `GIRWriter._write_property`: the test guarding `attrs.append(('default-value', ...))` -/
+def defaultWrittenTests : List String := %s
+
 /-- `_pair_class_virtuals`: the two tests on the callback's parameters -/
 def vfuncTests : List String := %s
 
@@ -259,6 +281,9 @@ end GIVerif.Gen
        lean_list([lean_str(a) for a in walk_src]), lean_str(short_digest(walk_src)),
        lean_list([lean_str(a) for a in default_parent]),
        lean_list([lean_str(a) for a in pq_strs]),
+       lean_list([lean_str(a) for a in pq_iters]),
+       lean_list([lean_str(a) for a in float_src]),
+       lean_list([lean_str(a) for a in default_tests]),
        lean_list([lean_str(a) for a in vf_src]),
        lean_list(['(%s, %s, %s, %s)' % tuple(lean_str(x) for x in c) for c in conts]),
        lean_str(plain),
